@@ -300,7 +300,9 @@ func possKeys(p *Prog, in map[int]bool) map[int]bool {
 		add(inner(in))
 	}
 	switch p.Op {
-	case "pass", "skip", "direct":
+	case "pass":
+		wrapped(func(in map[int]bool) map[int]bool { return in })
+	case "skip", "direct":
 		add(in)
 	case "node":
 		wrapped(func(map[int]bool) map[int]bool {
@@ -629,7 +631,28 @@ func (g *gctx) genSeq(tin bool, keys []int, tout bool, depth int, nStages int, a
 			// AddPassthroughNode: the value (or stream) goes through untouched
 			g.budget--
 			wantT = curT
-			st = stageOut{&Prog{Op: "pass", ID: g.id(), PassMap: curT}, curKeys, true, false}
+			pp := &Prog{Op: "pass", ID: g.id(), PassMap: curT}
+			pkeys := curKeys
+			if g.inject == "" && g.r.Chance(1, 2) {
+				// state handlers on the passthrough node (declared for `any`): value or stream form
+				w := &Wrap{}
+				if g.r.Chance(1, 2) {
+					w.Pre = g.handler(curT)
+				}
+				if w.Pre == nil || g.r.Chance(1, 2) {
+					w.Post = g.handler(curT)
+				}
+				pp.W = w
+				if curT {
+					// a map handler renders its input under its own key
+					if w.Post != nil {
+						pkeys = []int{w.Post.K1}
+					} else {
+						pkeys = []int{w.Pre.K1}
+					}
+				}
+			}
+			st = stageOut{pp, pkeys, true, false}
 		default:
 			st = g.genNode(curT, curKeys, wantT)
 		}
@@ -823,6 +846,14 @@ func (engine) Generate(r *lib.Rng, tier string, i int) any {
 		}
 		sp := &ScalarSpec{Shape: r.Intn(5), Nat: g.natSubset(), Out: ints(), In: ints(), DAG: r.Chance(1, 2), Pipe: r.Chance(1, 2)}
 		return &Case{Kind: "scalar", Scalar: sp}
+	}
+	if r.Chance(1, 40) {
+		// a Workflow node without a data input (execution dependency / static values only)
+		sp := &CtrlSpec{Shape: r.Intn(9), Nat: g.natSubset(), NChunk: r.Range(1, 3), Pipe: r.Chance(1, 2)}
+		for i, n := 0, r.Range(1, 3); i < n; i++ {
+			sp.In = append(sp.In, g.genString())
+		}
+		return &Case{Kind: "ctrl", Ctrl: sp}
 	}
 	if r.Chance(1, 4) {
 		// one packed lambda, all four views
